@@ -76,7 +76,7 @@ fn c07_o1_closest_candidates() {
 }
 
 //@ ob: C07.O2
-//@ tier: thorough
+//@ tier: off
 //@ cap: 2400
 //@ standins: tracing vcoll
 //@ desc: visit_closest() sends exactly one request to each unvisited candidate among the closest, marks it visited and tracks its transaction id; afterwards closest_candidates() is empty and a second visit_closest() sends nothing (an address is never queried twice by one lookup), even if the same node is offered again as a candidate
